@@ -84,6 +84,8 @@ FAM = {
     "truncated": [b"cverif_sink\nhit\n(S'A'\ntR"[:-3], pickle.dumps([1, 2, 3], 2)[:-2]],
     "underflow": [b"cverif_sink\nhit\n(S'A'\ntR00.", b"0."],
     "nomemo": [b"cverif_sink\nhit\n(S'A'\ntRg7\n.", b"h\x05."],
+    # the parser refuses the FIRST opcode (no verdict can exist) and a well-formed flagged pickle follows in the stream
+    "badfirst": [b"\xff" + B, b"I0x10\n" + B, b"\xff\x80\x02cverif_sink\nhit\n(S'A'\ntR.", b"Lnope\n" + B],
     "persid": [b"cverif_sink\nhit\n(S'A'\ntRPpid\n."],
     # 8-bit strings of protocol <= 2 pickles: what the unpickler makes of them depends on the options the caller passes
     # (encoding=, errors=): a checked load hands the caller's options on
